@@ -5,7 +5,7 @@ from __future__ import annotations
 import ast
 
 from ..fold import CannotFold, Folder
-from ..interp import analyze, truth
+from ..interp import analyze, order_facts, truth
 from ..model import AnalysisError, Model
 from ..report import Ctx, where
 from ..strtpl import flatten
@@ -35,7 +35,7 @@ class Unquoter:
             self.qual, self.mod, self.tag = "_quoting_c._Unquoter._do_unquote", "_quoting_c", "CU"
         self.fi = model.func(self.qual)
         tr = lambda kind, t: kind == "call" and (callee_name(t) in ("decode", "PyUnicode_DecodeUTF8Stateful"))
-        self.r = analyze(model, self.fi, trace=tr, trace_key="decode")
+        self.r = analyze(model, self.fi, trace=tr, trace_key="decode", merge=False)     # small functions: every path kept apart
         self.inner, self.attr_map = inner_quoters(model, self.mod)
         ctx.functions.update([self.qual, f"{self.mod}._Unquoter.__init__"])
         self.param_attr = {p: a for a, p in self.attr_map.items()}
@@ -290,22 +290,24 @@ def read_bounds(ctx: Ctx, model: Model, fi, r):
         base, c = lin(e.args[2])
         st = e.state
         ok, why = False, "no bound fact"
+        if base[0] == "elem" and base[1][0] == "call" and base[1][1] == ("builtin", "range") and len(base[1][2]) == 1 \
+                and _is_length(base[1][2][0]) and c == 0:
+            ctx.ob(rule, fi.qual, show(e.value), True, where=where(fi, e.node), sample="index drawn from range(length)")
+            continue
         if base[0] != "phi":
             ctx.ob(rule, fi.qual, show(e.value), False, "read index is not derived from the loop index", where(fi, e.node))
             continue
-        for k, v in st.facts.items():
-            if not v or k[0] != "cmp" or k[1] not in ("Lt", "LtE"):
-                continue
-            lb, la = lin(k[2])
-            rb, rbo = lin(k[3])
+        for op, a, b in order_facts(st.facts):
+            lb, la = lin(a)
+            rb, rbo = lin(b)
             if lb != base:
                 continue
             if not _is_length(rb):
                 continue
             # base + la < LEN + rbo   =>  base + (la - rbo) < LEN ;  with <= one less
-            slack = la - rbo - (0 if k[1] == "Lt" else 1)
+            slack = la - rbo - (0 if op == "Lt" else 1)
             if 0 <= c <= slack:
-                ok, why = True, f"{show(k)}"
+                ok, why = True, f"{show(a)} {'<' if op == 'Lt' else '<='} {show(b)}"
         if not ok and c == -1:
             # decreasing scan: index starts at the length, is decremented once per iteration, loop runs while index != 0
             srcs = r.phis.get((base[1], base[2]), set())
